@@ -559,4 +559,120 @@ theorem phase2_notify_ext {n : Node} {b : Block} (hS : Static c w addrs own') (h
 
 end
 
+-- ------------------------------------------------------------------ histories: extensions between the removal steps
+
+/-- the domain of `remove_interleaved_ext`, threaded along the history (`started`: a removal step has run): like `DomA`,
+    and AFTER the first removal step a tip notification is allowed when the announced chain is the stored chain plus
+    the announced block (an extension; reorganisations between two removal steps are outside — and must be:
+    `MW.Lemmas.RemoveMidCex`) -/
+def DomB (limit : Nat) (c : Ctx) (w : Wid) (addrs : List Addr) (G : Block) : Bool → ISt → List IEv → Prop
+  | _, _, [] => True
+  | started, x, ev :: evs =>
+    (match ev with
+      | .rem => PendOK addrs x.s x.node.chain
+      | .notify n b => NodeOK c.own G x.node.known n b ∧
+          ((started = false ∧ IdInj (x.node.chain ++ n.chain) ∧ (b.height = 0 → b.prev ≠ x.v.best.hash)) ∨
+           (started = true ∧ n.chain = x.node.chain ++ [b] ∧ b.prev = x.v.best.hash))
+      | .recv _ => True
+      | .restart v => v.best = x.v.best) ∧
+    ∀ x', istep limit c w addrs x ev = some x' → DomB limit c w addrs G (started || ev.isRem) x' evs
+
+section
+variable {limit : Nat} {c : Ctx} {w : Wid} {addrs : List Addr} {own' : Own} {G : Block}
+
+/-- `DomA` is the part of `DomB` without notifications after the first removal step -/
+theorem domB_of_domA : ∀ (evs : List IEv) (started : Bool) (x : ISt),
+    DomA limit c w addrs G started x evs → DomB limit c w addrs G started x evs := by
+  intro evs
+  induction evs with
+  | nil => intro _ _ _; trivial
+  | cons ev evs ih =>
+    intro started x h
+    obtain ⟨hev, hdom⟩ := h
+    refine ⟨?_, fun x' hx' => ih _ _ (hdom x' hx')⟩
+    cases ev with
+    | rem => exact hev
+    | notify n b => exact ⟨hev.2.1, Or.inl ⟨hev.1, hev.2.2.1, hev.2.2.2⟩⟩
+    | recv t => exact hev
+    | restart v => exact hev
+
+theorem domB_run (hS : Static c w addrs own') (ws' : List Wid) (hws : ∀ y ∈ ws', y ∈ c.wallets) :
+    ∀ (evs : List IEv) (started : Bool) (x xe : ISt),
+      (started = false → Phase1 c w G x) → (started = true → Phase2 c w addrs own' G x) →
+      DomB limit c w addrs G started x evs → irun limit c w addrs x evs = some xe → xe.fin = true →
+      Inv { c with own := own', wallets := ws', node := xe.node } xe.s xe.node.chain := by
+  intro evs
+  induction evs with
+  | nil =>
+    intro started x xe h1 h2 _ h hfin
+    simp only [irun, Option.some.injEq] at h
+    subst h
+    exfalso
+    cases started with
+    | false => have := (h1 rfl).cf.fin; rw [hfin] at this; cases this
+    | true =>
+      obtain ⟨_, _, _, _, _, hcf⟩ := h2 rfl
+      have := hcf.fin; rw [hfin] at this; cases this
+  | cons ev evs ih =>
+    intro started x xe h1 h2 hD h hfin
+    obtain ⟨hev, hdom⟩ := hD
+    simp only [irun] at h
+    cases hs : istep limit c w addrs x ev with
+    | none => rw [hs] at h; cases h
+    | some x1 =>
+      rw [hs] at h
+      have hdom' := hdom x1 hs
+      cases ev with
+      | rem =>
+        have hcore : (x1.fin = false → Phase2 c w addrs own' G x1) ∧
+            (x1.fin = true → ∀ ws', (∀ y ∈ ws', y ∈ c.wallets) →
+              Inv { c with own := own', wallets := ws', node := x1.node } x1.s x1.node.chain) := by
+          cases started with
+          | false => exact phase1_rem hS (h1 rfl) hev hs
+          | true => exact phase2_rem hS (h2 rfl) hev hs
+        cases hf1 : x1.fin with
+        | false =>
+          have hd : DomB limit c w addrs G true x1 evs := by
+            cases started <;> exact hdom'
+          exact ih true x1 xe (fun h => by cases h) (fun _ => hcore.1 hf1) hd h hfin
+        | true =>
+          have := irun_fin hf1 h
+          subst this
+          exact hcore.2 hf1 ws' hws
+      | notify n b =>
+        obtain ⟨hN, ⟨hst, hinj, hg0⟩ | ⟨hst, hext, hprev⟩⟩ := hev
+        · subst hst
+          obtain ⟨x1', hs', hP'⟩ := phase1_notify (limit := limit) (addrs := addrs) hS.keys (h1 rfl) hN hinj hg0
+          rw [hs] at hs'
+          injection hs' with hs'
+          subst hs'
+          exact ih false x1 xe (fun _ => hP') (fun h => by cases h) hdom' h hfin
+        · subst hst
+          obtain ⟨x1', hs', hP'⟩ := phase2_notify_ext (limit := limit) hS (h2 rfl) hN hext hprev
+          rw [hs] at hs'
+          injection hs' with hs'
+          subst hs'
+          exact ih true x1 xe (fun h => by cases h) (fun _ => hP') hdom' h hfin
+      | recv t =>
+        cases started with
+        | false => exact ih false x1 xe (fun _ => phase1_recv (h1 rfl) hs) (fun h => by cases h) hdom' h hfin
+        | true => exact ih true x1 xe (fun h => by cases h) (fun _ => phase2_recv (h2 rfl) hs) hdom' h hfin
+      | restart v =>
+        cases started with
+        | false => exact ih false x1 xe (fun _ => phase1_restart hev (h1 rfl) hs) (fun h => by cases h) hdom' h hfin
+        | true => exact ih true x1 xe (fun h => by cases h) (fun _ => phase2_restart hev (h2 rfl) hs) hdom' h hfin
+
+/-- **removal interleaved with the follower, new blocks between the steps**: from a store that follows the chain with
+    `w` flagged, any history inside `DomB` — tip notifications for ANY announced node state before the first removal
+    step, EXTENSIONS of the stored chain between the removal steps, unconfirmed transactions and restarts anywhere —
+    that ends with the finishing step leaves C01's invariant for the table without `w`, on the chain the follower was
+    last told about -/
+theorem remove_interleaved_ext {x0 x : ISt} {evs : List IEv} {ws' : List Wid}
+    (hP : Phase1 c w G x0) (hS : Static c w addrs own') (hD : DomB limit c w addrs G false x0 evs)
+    (hrun : irun limit c w addrs x0 evs = some x) (hfin : x.fin = true) (hws : ∀ y ∈ ws', y ∈ c.wallets) :
+    Inv { c with own := own', wallets := ws', node := x.node } x.s x.node.chain :=
+  domB_run hS ws' hws evs false x0 x (fun _ => hP) (fun h => by cases h) hD hrun hfin
+
+end
+
 end MW.Lemmas.RemoveInterleave
